@@ -119,7 +119,9 @@ def bandTags (cl : Clip) (k w : Nat) (x y : List Nat) (rest : List String) : Opt
         let emptyCol := b.ranges.any (fun p => p.1 ≥ p.2)
         some ((if same then ["band=impl"] else ["drift-band"])
           ++ (if ms.isEmpty then [] else if emptyCol then ["band-has-empty-column"] else ["band-all-columns"])
-          ++ (if Model.Band.numCells b = (x.length + 1) * (y.length + 1) then ["band=matrix"] else []), some b)
+          ++ (if Model.Band.numCells b = (x.length + 1) * (y.length + 1) then ["band=matrix"] else [])
+          -- the shape invariant of `Model/Band.lean`, evaluated on the band the *code* holds (coverage, never a violation)
+          ++ (if decide (Model.Band.Connected ranges) then ["band-connected"] else ["band-not-connected"]), some b)
       | _, _, _ => none
     | _, _, _ => none
 
